@@ -418,3 +418,116 @@ Definition render (a : ast) (ch : choices) : list Z :=
 
 (* the canonical choices: lower-case keywords, atoms where possible, no optional syntax *)
 Definition canon : choices := mkChoices (fun _ _ => false) (fun _ _ => O) (fun _ => false).
+
+(* ------------------------------------------------------------------ well-formed ASTs *)
+(* The values an AST may carry so that it is the parse of its own sentences: what the parser
+   normalises (mailbox names through os.path.normpath and INBOX, search strings lower-cased) must
+   already be normal, atoms must be atoms, numbers must fit Python's int() limit of 4300 digits,
+   dates must exist.  All decidable. *)
+
+(* a number the parser can read back: not negative, at most 4300 digits *)
+Definition num_ok (n : Z) : bool := (0 <=? n) && int_ok (r_number n).
+(* a string whose length can be written in a literal prefix *)
+Definition str_ok (v : list Z) : bool := num_ok (Z.of_nat (List.length v)).
+(* a name the parser hands on unchanged *)
+Definition mailbox_ok (m : list Z) : bool := beq (mailbox_norm m) m && str_ok m.
+Definition pattern_ok (p : list Z) : bool := beq (pattern_norm p) p && str_ok p.
+(* flag = atom or backslash atom *)
+Definition flag_ok (f : list Z) : bool :=
+  match f with
+  | c :: a => if c =? 92 then is_atom a else is_atom f
+  | [] => false
+  end.
+Definition satom_ok (a : sset_atom) : bool := match a with AStar => true | ANum n => num_ok n end.
+Definition selt_ok (e : sset_elt) : bool :=
+  match e with EStar => true | ENum n => num_ok n | ERange a b => satom_ok a && satom_ok b end.
+Definition set_ok (l : list sset_elt) : bool := match l with [] => false | _ => forallb selt_ok l end.
+Definition date_wf (d : date) : bool := let '(y, m, dd) := d in (1 <=? m) && (m <=? 12) && date_ok y m dd.
+(* known finding C08-datetime-2digit-year: a date-time year below 0100 is not read back *)
+Definition date_time_wf (t : date_time) : bool :=
+  let '(y, m, d, h, mi, s, off) := t in
+  (1 <=? m) && (m <=? 12) && date_ok y m d && (100 <=? y)
+  && (0 <=? h) && (h <=? 23) && (0 <=? mi) && (mi <=? 59) && (0 <=? s) && (s <=? 59)
+  && (off mod 60 =? 0) && (Z.abs off <? 86400).
+
+Definition tag_ok (t : list Z) : bool := match t with [] => false | _ => forallb tag_char t end.
+(* search strings, header names and the charset are lower-cased by the parser *)
+Definition lowered_ok (s : list Z) : bool := beq (lower_s s) s && str_ok s.
+
+Definition sect_text_ok (nums : list Z) (t : sect_text) : bool :=
+  match t with
+  | TxMime => match nums with [] => false | _ => true end
+  | TxFields _ hdrs => match hdrs with [] => false | _ => forallb str_ok hdrs end
+  | _ => true
+  end.
+Definition section_ok (s : section) : bool :=
+  let '(nums, t) := s in
+  forallb num_ok nums && match t with None => true | Some t' => sect_text_ok nums t' end.
+Definition fatt_ok (a : fetch_att) : bool :=
+  match a with
+  | FBody _ sec part => section_ok sec && match part with None => true | Some (x, y) => num_ok x && num_ok y end
+  | _ => true
+  end.
+
+(* d = levels of nesting the parser still accepts below this key (MAX_SEARCH_KEY_DEPTH = 32 at the top);
+   a parenthesised list of exactly one key is that key, so KAnd never has one element *)
+Fixpoint skey_ok (d : nat) (k : skey) {struct k} : bool :=
+  match k with
+  | KAll => true
+  | KKeyword f => match sysflag_key f with Some _ => true | None => is_atom f end
+  | KHeader h s => lowered_ok h && lowered_ok s
+  | KDate _ dt => date_wf dt
+  | KBody s => lowered_ok s
+  | KText s => lowered_ok s
+  | KLarger n => num_ok n
+  | KSmaller n => num_ok n
+  | KNot k' => match d with O => false | S d' => skey_ok d' k' end
+  | KOr a b => match d with O => false | S d' => skey_ok d' a && skey_ok d' b end
+  | KAnd l => match l with
+              | [_] => false
+              | [] => true
+              | _ => match d with O => false | S d' => forallb (skey_ok d') l end
+              end
+  | KMsgSet l => set_ok l
+  | KUid l => set_ok l
+  end.
+
+Definition sel_ok (o : sel_opts) : bool := negb (so_recursive o) || so_subscribed o || so_special o.
+
+Fixpoint keys_distinct {V} (l : list (list Z * V)) : bool :=
+  match l with
+  | [] => true
+  | (k, _) :: l' => negb (existsb (fun e => beq k (fst e)) l') && keys_distinct l'
+  end.
+Definition id_pair_ok (p : list Z * option (list Z)) : bool :=
+  str_ok (fst p) && match snd p with None => true | Some v => str_ok v end.
+
+Definition cmd_ok (c : cmd) : bool :=
+  match c with
+  | CNoArg _ => true
+  | CExpunge => true
+  | CUidExpunge set => set_ok set
+  | CAuthenticate mech => is_atom mech
+  | CLogin u p => str_ok u && str_ok p
+  | CMbox _ m => mailbox_ok m
+  | CRename a b => mailbox_ok a && mailbox_ok b
+  | CList _ sel ref pat pats ret st =>
+      sel_ok sel && mailbox_ok ref
+      && match pats with [] => str_ok pat | _ => beq pat [] && forallb pattern_ok pats end
+      && (if ro_status ret then match st with [] => false | _ => true end else match st with [] => true | _ => false end)
+  | CStatus m _ => mailbox_ok m
+  | CId params => forallb id_pair_ok params && keys_distinct params
+  | CAppend m flags dt msg =>
+      mailbox_ok m && forallb flag_ok flags && match dt with None => true | Some t => date_time_wf t end && str_ok msg
+  | CSearch _ charset keys =>
+      lowered_ok charset && match keys with [] => false | _ => forallb (skey_ok 32) keys end
+  | CFetch _ set atts => set_ok set && forallb fatt_ok atts
+  | CStore _ set _ _ flags => set_ok set && forallb flag_ok flags
+  | CCopy _ set m => set_ok set && mailbox_ok m
+  | CMove _ set m => set_ok set && mailbox_ok m
+  end.
+
+Definition wf (a : ast) : bool := tag_ok (a_tag a) && cmd_ok (a_cmd a).
+
+(* the part of the grammar covered by the completeness theorem: all of it *)
+Definition covered (a : ast) : bool := true.
